@@ -764,6 +764,7 @@ func main() {
 	writeIfChanged(filepath.Join(*out, "facts.json"), string(b)+"\n")
 	writeIfChanged(filepath.Join(*out, "Facts.lean"), lean(F))
 	translateAll(*repo, *out)
+	writeStateInventory(*repo, *out)
 }
 
 func must(err error) {
